@@ -7,7 +7,7 @@ from sa.astx import call_attr, call_name, names_read, src, statements, walk_loca
 from sa.effects import class_accesses
 from sa.selftest import Mutant, Silent
 from sa.source import AnalysisError
-from sa.props._lib_i import sect, COMPAT, BlockRaised, NotPure, Raised, eval_block, interp, module_env, peval
+from sa.props._lib_i import sect, COMPAT, BlockRaised, FollowModule, Model, NotPure, Raised, bind_methods, eval_block, interp, module_env, peval
 
 PROPERTY = "C45"
 JELLY = "spread/jelly.py"
@@ -144,12 +144,93 @@ def _norm(m):
     return m.decode("ascii") if isinstance(m, bytes) else m
 
 
+# where a wire name can sit in the s-expression handed to a handler: the atom itself, or inside a nested s-expression
+SHAPES = [lambda n: [n, [b"dictionary"]], lambda n: [[b"class", n], [b"dictionary"]], lambda n: [b"x", n, [b"class", n]]]
 WIRE_NAMES = [b"a.b.C", b"a.b.c.D", b"a.bc.D", b"a.D", b"os.system", b"a.b.os.system", b"a.b.os.path.join", b"C", b"a.b", b"a.b.C.method"]
 # the permissive policy comes first: whatever it makes the method remember must not leak into the stricter runs that follow
 POLICIES = [frozenset({"a.b", "a.b.c", "a.bc", "a", "os", "a.b.os", "a.b.os.path", "a.b.C", ""}), frozenset(), frozenset({"a.b"}), frozenset({"a"}), frozenset({"a.b", "os.path"})]
 
 
-def _resolver_semantics(ctx, f, fq, menv):
+def _reachable_methods(cls, f):
+    """f plus the private methods of cls it calls, transitively."""
+    ms = {m.name: m for m in cls.body if isinstance(m, ast.FunctionDef)}
+    seen, work = {f.name: f}, [f]
+    while work:
+        cur = work.pop()
+        for c in ast.walk(cur):
+            n = (call_name(c) or "") if isinstance(c, ast.Call) else ""
+            if n.startswith("self.") and n.count(".") == 1 and n[5:] in ms and n[5:] not in seen and n[5:] != "unjelly":
+                seen[n[5:]] = ms[n[5:]]
+                work.append(ms[n[5:]])
+    return list(seen.values())
+
+
+class _SectionDone(Exception):
+    """Raised to leave a section early once the evaluated rule has decided its clause (the structural fallback is skipped)."""
+
+
+class _until_done:
+    def __enter__(self):
+        return self
+
+    def __exit__(self, et, ev, tb):
+        return et is not None and issubclass(et, _SectionDone)
+
+
+def _type_policy_semantics(ctx, f, fq, menv, mod, cls):
+    """unjelly() evaluated with a type policy that refuses: it must raise InsecureJelly having asked about exactly the type atom and
+    having done nothing else - no registered class / factory used, no handler dispatched, nothing resolved or instantiated."""
+    params = [a.arg for a in f.args.args if a.arg != "self"]
+    if len(params) != 1:
+        raise AnalysisError("unjelly: expected (self, obj)")
+    import copy
+    for atom in (b"a.b.C", b"list", b"registered.Type", b"made.ByFactory"):
+        observed, asked = [], []
+        funcs = FollowModule(mod, dict(COMPAT), menv)
+        for r in RESOLVERS_OBJECT | RESOLVERS_MODULE:
+            funcs[r] = lambda x, *a, _o=observed: (_o.append(("resolved", x)), _Resolved)[1]
+        for inst in ("_newInstance", "_createBlank"):
+            funcs[inst] = lambda c, *a, _o=observed: (_o.append(("instantiated", c)), None)[1]
+        handler = lambda *a, _o=observed: _o.append(("handler dispatched",))            # noqa: E731
+        handler.__name__ = "lam"
+        funcs["getattr"] = lambda o, nme, d=None, _h=handler: (_h if isinstance(nme, str) and nme.startswith("_unjelly_") else d)
+        funcs["hasattr"] = lambda o, nme: False
+        registered = lambda *a, _o=observed: _o.append(("registered class used",))       # noqa: E731
+        registered.__name__ = "lam"
+        factory = lambda *a, _o=observed: _o.append(("registered factory used",))        # noqa: E731
+        factory.__name__ = "lam"
+        env = dict(menv)
+        env.update({k: copy.deepcopy(v) for k, v in menv.items() if isinstance(v, (dict, list, set))})
+        env["unjellyableRegistry"] = {b"registered.Type": registered}
+        env["unjellyableFactoryRegistry"] = {b"made.ByFactory": factory}
+        env.update({"self": object(), params[0]: [atom, [b"dictionary"]],
+                    "self.taster.isTypeAllowed": lambda t, _a=asked: (_a.append(t), False)[1], "self.taster.isModuleAllowed": lambda m: True,
+                    "self.taster.isClassAllowed": lambda c: True, "self._genericUnjelly": lambda c, st, _o=observed: _o.append(("instantiated", c)),
+                    "self._maybePostUnjelly": lambda o: o, "self.unjelly": lambda o, _o=observed: (_o.append(("nested unjelly",)), _Unjellied(o))[1]})
+        bind_methods(env, [cls], funcs, skip={f.name})
+        raised = None
+        try:
+            r = eval_block(f.body, env, funcs=funcs)
+            raised = r.raised
+        except BlockRaised as ex:
+            raised = str(ex.exc) if isinstance(ex.exc, RuntimeError) and str(ex.exc).startswith("raise ") else None
+            if raised is None:
+                raise AnalysisError(f"unjelly not evaluable for atom {atom!r}: {ex}")
+        ctx.check(bool(raised) and "InsecureJelly" in raised and not observed, "type-policy/first", f"{fq} | refused type atom {atom!r}",
+                  f"with a policy refusing the type atom {atom!r}, unjelly() " + ("does not raise InsecureJelly" if not (raised and "InsecureJelly" in raised) else "raises only after")
+                  + f" {observed!r}: isTypeAllowed must be consulted, and obeyed, before anything else happens")
+        ctx.check(asked[:1] == [atom], "type-policy/same-atom", f"{fq} | policy asked about {atom!r}",
+                  f"for the s-expression [{atom!r}, ...] the type policy is asked about {asked!r}: it must be asked about the very atom that is then looked up and dispatched on")
+
+
+class _Unjellied(Model):
+    """What self.unjelly(...) hands back in the evaluation: an object produced by the (checked) unjelly machinery."""
+
+    def __init__(self, source):
+        self.source = source
+
+
+def _resolver_semantics(ctx, f, fq, menv, q="", mod=None, cls=None):
     """Evaluate the whole method with a modelled policy (exact-membership module allow-list, every class / type allowed) and
     recording resolvers: whatever idiom derives the module name, a name may be resolved only when the module that will really
     be imported / traversed for it - everything before the last dot (the whole name for module resolvers) - is allowed."""
@@ -160,14 +241,17 @@ def _resolver_semantics(ctx, f, fq, menv):
     n = 0
     import copy
     shared = {k: copy.deepcopy(v) for k, v in menv.items() if isinstance(v, (dict, list, set))}      # module-level mutable state lives across unjelly calls and tasters
-    module_only = all(call_name(c) in RESOLVERS_MODULE for c in ast.walk(f) if _is_call_to(c, RESOLVERS_OBJECT | RESOLVERS_MODULE))
+    reach = _reachable_methods(cls, f) if cls is not None else [f]
+    res_calls = [c for m in reach for c in ast.walk(m) if _is_call_to(c, RESOLVERS_OBJECT | RESOLVERS_MODULE)]
+    module_only = bool(res_calls) and all(call_name(c) in RESOLVERS_MODULE for c in res_calls)
+    bad_inst = None
 
     def mentions_resolved(v):
         return v is _Resolved or (isinstance(v, (tuple, list)) and any(mentions_resolved(x) for x in v))
     for allowed in POLICIES:
-        for name in WIRE_NAMES:
+        for name, shape in [(nm, sh) for nm in WIRE_NAMES for sh in SHAPES]:
             resolved = []
-            funcs = dict(COMPAT)
+            funcs = FollowModule(mod, dict(COMPAT), menv) if mod is not None else dict(COMPAT)
             for r in RESOLVERS_OBJECT:
                 funcs[r] = lambda x, *a, _r=resolved: (_r.append(("object", _norm(x))), _Resolved)[1]
             for r in RESOLVERS_MODULE:
@@ -175,27 +259,72 @@ def _resolver_semantics(ctx, f, fq, menv):
             funcs["getattr"] = lambda o, nme, d=None: d
             funcs["hasattr"] = lambda o, nme: False
             funcs["qual"] = lambda o: "qual"
+            made = []
+            for inst in ("_newInstance", "_createBlank"):
+                funcs[inst] = lambda c, *a, _m=made: (_m.append(c), None)[1]
             env = dict(menv)
             env.update(shared)
-            env.update({"self": object(), params[0]: [name, [b"dictionary"]],
+            env.update({"self": object(), params[0]: shape(name),
                         "self.taster.isModuleAllowed": lambda m, _a=allowed: _norm(m) in _a, "self.taster.isClassAllowed": lambda c: True,
-                        "self.taster.isTypeAllowed": lambda t: True, "self._genericUnjelly": lambda c, st: ("instance of", c),
-                        "self._maybePostUnjelly": lambda o: o, "self.unjelly": lambda o: o, "unjellyableRegistry": {}, "unjellyableFactoryRegistry": {}})
+                        "self.taster.isTypeAllowed": lambda t: True, "self._genericUnjelly": lambda c, st, _m=made: (_m.append(c), ("instance of", c))[1],
+                        "self._maybePostUnjelly": lambda o: o, "self.unjelly": lambda o: _Unjellied(o)})
+            if cls is not None:
+                bind_methods(env, [cls], funcs, skip={f.name})        # private helpers of _Unjellier are followed; the models above win
             res = None
             try:
                 res = eval_block(f.body, env, funcs=funcs)
             except BlockRaised:
                 pass                     # the evaluated method raises (e.g. on a name without a dot): nothing more is resolved
             n += 1
+            for c in made:            # provenance of every class handed to an instantiation sink
+                if not (c is _Resolved or isinstance(c, _Unjellied) or c is None) and bad_inst is None:
+                    bad_inst = (name, c)
             if res is not None and res.returned and mentions_resolved(res.value) and not resolved:
                 x = _norm(name)
                 module = x if module_only else x.rpartition(".")[0]
                 if module not in allowed and bad is None:
                     bad = (name, sorted(allowed), "remembered", x, module)
             for kind, x in resolved:
+                if not isinstance(x, str):
+                    continue                 # a non-text argument makes the real resolver raise: nothing is imported
                 module = x if kind == "module" else x.rpartition(".")[0]
                 if module not in allowed and bad is None:
                     bad = (name, sorted(allowed), kind, x, module)
+    ctx.check(bad_inst is None, "instantiate/class-provenance", fq + " | <whole method, what reaches an instantiation sink>",
+              bad_inst and f"for the s-expression naming {bad_inst[0]!r} the value {bad_inst[1]!r} - taken from the wire, neither a policy-checked resolver result nor an object produced by "
+              "self.unjelly / the registries - is handed to an instantiation sink")
+    # class policy: module allowed, class refused -> nothing resolved may be returned or instantiated (methods yielding classes / instances only)
+    exempt = any((q, call_name(c)) in NO_CLASS_POLICY for c in ast.walk(f) if _is_call_to(c, RESOLVERS_OBJECT | RESOLVERS_MODULE))
+    if not exempt and res_calls:
+        badc = None
+        for name, shape in [(nm, sh) for nm in (b"a.b.C", b"x.y") for sh in SHAPES]:
+            made = []
+            funcs = FollowModule(mod, dict(COMPAT), menv) if mod is not None else dict(COMPAT)
+            for r in RESOLVERS_OBJECT | RESOLVERS_MODULE:
+                funcs[r] = lambda x, *a: _Resolved
+            funcs["getattr"] = lambda o, nme, d=None: d
+            funcs["hasattr"] = lambda o, nme: False
+            funcs["qual"] = lambda o: "qual"
+            for inst in ("_newInstance", "_createBlank"):
+                funcs[inst] = lambda c, *a, _m=made: (_m.append(c), None)[1]
+            env = dict(menv)
+            env.update({k: copy.deepcopy(v) for k, v in menv.items() if isinstance(v, (dict, list, set))})
+            env.update({"self": object(), params[0]: shape(name), "self.taster.isModuleAllowed": lambda m: True, "self.taster.isClassAllowed": lambda c: False,
+                        "self.taster.isTypeAllowed": lambda t: True, "self._genericUnjelly": lambda c, st, _m=made: (_m.append(c), ("instance of", c))[1],
+                        "self._maybePostUnjelly": lambda o: o, "self.unjelly": lambda o: _Unjellied(o)})
+            if cls is not None:
+                bind_methods(env, [cls], funcs, skip={f.name})
+            res = None
+            try:
+                res = eval_block(f.body, env, funcs=funcs)
+            except BlockRaised:
+                pass
+            leaked = (res is not None and res.returned and mentions_resolved(res.value)) or any(m is _Resolved for m in made)
+            if leaked and badc is None:
+                badc = name
+        ctx.check(badc is None, "resolver/class-policy", fq + " | <whole method, class refused by the policy>",
+                  badc and f"with the module allowed but the class refused (isClassAllowed false), the s-expression naming {badc!r} still makes the method return or instantiate "
+                  "the resolved object")
     ctx.check(bad is None, "resolver/never-resolves-outside-policy", fq + " | <whole method, modelled policy>",
               bad and (f"with modules {bad[1]!r} allowed, the s-expression naming {bad[0]!r} makes the method " +
                        ("return an object resolved earlier under a more permissive policy (a memo shared between tasters) although module " if bad[2] == "remembered"
@@ -279,9 +408,11 @@ def check(ctx):
         # ---- R1 resolver sinks
         sinks = g.find(lambda x: _is_call_to(x, RESOLVERS_OBJECT | RESOLVERS_MODULE))
         semantic = False
-        if sinks:
+        inst_sinks = g.find(lambda x: _is_call_to(x, INSTANTIATORS))
+        reaches_resolver = any(_is_call_to(c, RESOLVERS_OBJECT | RESOLVERS_MODULE) for m in _reachable_methods(cls, f) for c in ast.walk(m))
+        if sinks or inst_sinks or reaches_resolver:
             try:
-                _resolver_semantics(ctx, f, fq, menv)
+                _resolver_semantics(ctx, f, fq, menv, q, mod, cls)
                 semantic = True
             except AnalysisError as ex:
                 ctx.note(f"{q}: whole-method evaluation not possible ({ex}); decided by the structural rules only")
@@ -291,6 +422,9 @@ def check(ctx):
                 name = call_name(call)
                 ctx.need(call.args, f"argument of {name} in {q}")
                 xarg = call.args[0]
+                if semantic:
+                    ctx.ok("resolver/module-policy-dominates", ctx.construct(fq, call), "decided by whole-method evaluation under modelled policies")
+                    continue
                 margs = _guard_args(g, s, "isModuleAllowed")
                 ok = ctx.check(bool(margs), "resolver/module-policy-dominates", ctx.construct(fq, call),
                                f"{name}({src(xarg)}) can be reached without self.taster.isModuleAllowed(...) having answered true: a name from the wire is "
@@ -328,7 +462,7 @@ def check(ctx):
                               f"the object resolved from a wire name ({var}) is returned / instantiated without self.taster.isClassAllowed({var}) having answered true",
                               witness=g.describe(g.path([s], [u])))
         # ---- R2b every value-returning path of a dedicated resolver method lies under the module policy (early returns of cached values included)
-        if sinks and f.name.startswith("_unjelly_"):
+        if sinks and f.name.startswith("_unjelly_") and not semantic:
             for rn in g.ids(lambda n: n.kind == "stmt" and isinstance(n.ast, ast.Return) and n.ast.value is not None
                             and not (isinstance(n.ast.value, ast.Constant) and n.ast.value.value is None)):
                 ctx.check(bool(_guard_args(g, rn, "isModuleAllowed")), "resolver/every-return-under-policy", ctx.construct(fq, g.node(rn).ast),
@@ -339,7 +473,9 @@ def check(ctx):
             for call in [x for x in walk_local(g.node(s).ast) if _is_call_to(x, INSTANTIATORS)]:
                 n_inst += 1
                 carg = call.args[0] if call.args else None
-                why = _class_provenance(ctx, f, g, s, carg)
+                why = _class_provenance(ctx, f, g, s, carg, semantic)
+                if why is None and semantic:
+                    why = "decided by whole-method evaluation: only resolver results / unjelly results reach the sink"
                 ctx.check(why is not None, "instantiate/class-provenance", ctx.construct(fq, call),
                           f"the class argument {src(carg)} of {call_name(call)} is neither a policy-checked resolver result, a self.unjelly(...) result, a registry entry "
                           "nor the method's own class parameter: a wire-controlled value is instantiated", detail=why or "")
@@ -367,8 +503,8 @@ def check(ctx):
                     # name proven a direct member of the object's __dict__
                     for t, lab in g.edge_guards(s):
                         e = g.node(t).ast
-                        if lab == "T" and isinstance(e, ast.Compare) and len(e.ops) == 1 and isinstance(e.ops[0], ast.In) and src(e.left) == src(nm) \
-                                and src(e.comparators[0]) == src(obj) + ".__dict__":
+                        if isinstance(e, ast.Compare) and len(e.ops) == 1 and ((lab == "T" and isinstance(e.ops[0], ast.In)) or (lab == "F" and isinstance(e.ops[0], ast.NotIn))) \
+                                and src(e.left) == src(nm) and src(e.comparators[0]) == src(obj) + ".__dict__":
                             ok = True
                             why = "name is a key of the object's own __dict__"
                 ctx.check(ok, "getattr/confined", ctx.construct(fq, call),
@@ -389,10 +525,18 @@ def check(ctx):
         ctx.floor("getattr sites", n_getattr, 3)
 
     # ---- R4 unjelly(): type policy first, one atom for everything
-    with sect(ctx, 'R4 unjelly(): type policy first, one atom for everything'):
+    with sect(ctx, 'R4 unjelly(): type policy first, one atom for everything'), _until_done():
         f = ctx.func(JELLY, "_Unjellier.unjelly")
         g = ctx.cfg(f)
         fq = base + "_Unjellier.unjelly"
+        type_semantic = False
+        try:
+            _type_policy_semantics(ctx, f, fq, menv, mod, cls)
+            type_semantic = True
+        except AnalysisError as ex:
+            ctx.note(f"unjelly: whole-method evaluation of the type policy not possible ({ex}); decided structurally")
+        if type_semantic:
+            raise _SectionDone()
         tguards = g.ids(lambda n: n.kind == "test" and _policy_arg(f, n.ast, "isTypeAllowed") is not None)
         ctx.check(len(tguards) >= 1, "type-policy/first", fq + " | isTypeAllowed test", "unjelly() no longer asks the policy whether the type atom is allowed")
         acted = 0
@@ -517,7 +661,7 @@ def check(ctx):
         _check_security_options(ctx, mod, funcs)
 
 
-def _class_provenance(ctx, f, g, sink, carg):
+def _class_provenance(ctx, f, g, sink, carg, semantic=False):
     if carg is None:
         return None
     if not isinstance(carg, ast.Name):
@@ -534,6 +678,8 @@ def _class_provenance(ctx, f, g, sink, carg):
     if isinstance(v, ast.Call) and call_attr(v) == "get" and isinstance(v.func.value, ast.Name) and v.func.value.id in REGISTRY_WRITERS.values():
         return "registry entry"
     if _is_call_to(v, RESOLVERS_OBJECT):
+        if semantic:
+            return "resolver result (class policy decided by whole-method evaluation)"
         if any(src(a) == carg.id for a in _guard_args(g, sink, "isClassAllowed")):
             return "resolver result under isClassAllowed"
     return None
@@ -572,8 +718,9 @@ def _check_security_options(ctx, mod, funcs):
               bad and f"with only type 'list' allowed, isTypeAllowed({bad[0][0]!r}) is {bad[0][1]}", detail="dotted names are deferred to the module/class policy (checked by the resolver rules)")
     # defaults: nothing but harmless value types
     init = ctx.func(JELLY, "SecurityOptions.__init__")
-    e = {}
-    eval_block(init.body, e, funcs=funcs)
+    e = module_env(mod)                 # module-level constants the defaults may be built from
+    e["self"] = object()
+    eval_block(init.body, e, funcs=FollowModule(mod, dict(funcs), e))
     for attr in ("self.allowedModules", "self.allowedClasses"):
         ctx.check(e.get(attr) == {}, "policy/defaults-empty", base + "__init__ | " + attr, f"a fresh SecurityOptions starts with {attr} = {e.get(attr)!r}: it must allow nothing until told to")
     extra = set(e.get("self.allowedTypes", {})) - SAFE_DEFAULT_TYPES
@@ -588,17 +735,17 @@ def _check_security_options(ctx, mod, funcs):
 
 MUTANTS = [
     Mutant("class-atom-module-check-dropped", JELLY, '        if not self.taster.isModuleAllowed(modName):\n            raise InsecureJelly("module %s not allowed" % modName)\n        klaus = namedObject(cname)\n',
-           "        klaus = namedObject(cname)\n", expect_rule="resolver/module-policy-dominates"),
+           "        klaus = namedObject(cname)\n", expect_rule="resolver/"),
     Mutant("function-resolved-before-check", JELLY, '        if not self.taster.isModuleAllowed(modName):\n            raise InsecureJelly("Module not allowed: %s" % modName)\n        # XXX do I need an isFunctionAllowed?\n        function = namedAny(fname)\n',
            '        function = namedAny(fname)\n        if not self.taster.isModuleAllowed(modName):\n            raise InsecureJelly("Module not allowed: %s" % modName)\n',
-           expect_rule="resolver/module-policy-dominates"),
+           expect_rule="resolver/"),
     Mutant("generic-class-check-dropped", JELLY, '            clz = namedObject(jelTypeText)\n            if not self.taster.isClassAllowed(clz):\n                raise InsecureJelly("Class %s not allowed." % jelTypeText)\n',
            "            clz = namedObject(jelTypeText)\n", expect_rule="resolver/class-policy"),
     Mutant("class-atom-class-check-dropped", JELLY, '        if not self.taster.isClassAllowed(klaus):\n            raise InsecureJelly("class not allowed: %s" % qual(klaus))\n        return klaus\n', "        return klaus\n",
            expect_rule="resolver/class-policy"),
     Mutant("module-part-too-short", JELLY, '        modName = nativeString(".").join(clist[:-1])\n', '        modName = nativeString(".").join(clist[:1])\n', expect_rule="resolver/never-resolves-outside-policy"),
     Mutant("module-check-logged-not-enforced", JELLY, '        if not self.taster.isModuleAllowed(moduleName):\n            raise InsecureJelly(f"Attempted to unjelly module named {moduleName!r}")\n',
-           '        if not self.taster.isModuleAllowed(moduleName):\n            warnings.warn(f"Attempted to unjelly module named {moduleName!r}")\n', expect_rule="resolver/module-policy-dominates"),
+           '        if not self.taster.isModuleAllowed(moduleName):\n            warnings.warn(f"Attempted to unjelly module named {moduleName!r}")\n', expect_rule="resolver/"),
     Mutant("instance-atom-resolves-name-itself", JELLY, "        clz = self.unjelly(rest[0])\n        return self._genericUnjelly(clz, rest[1])\n",
            "        clz = namedObject(nativeString(rest[0][1]))\n        return self._genericUnjelly(clz, rest[1])\n", expect_rule="resolver/"),
     Mutant("instance-atom-nested-default-policy", JELLY, "        clz = self.unjelly(rest[0])\n        return self._genericUnjelly(clz, rest[1])\n",
@@ -621,6 +768,13 @@ MUTANTS = [
            more=[(JELLY, '            raise InsecureJelly("class not allowed: %s" % qual(klaus))\n        return klaus\n', '            raise InsecureJelly("class not allowed: %s" % qual(klaus))\n        unjellyableFactoryRegistry[cname] = klaus\n        return klaus\n')],
            expect_rule="resolver/"),
     Mutant("set-element-placeholder-test-narrowed", JELLY, "            if isinstance(data, NotKnown):\n", "            if isinstance(data, (_Dereference, _Container)):\n", expect_rule="placeholders/root-class-test"),
+    Mutant("class-check-helper-forgets-to-raise", JELLY, '        if not self.taster.isClassAllowed(klaus):\n            raise InsecureJelly("class not allowed: %s" % qual(klaus))\n        return klaus\n', "        return self._vetClass(klaus)\n",
+           more=[(JELLY, "    def _unjelly_class(self, rest):\n", "    def _vetClass(self, klass):\n        if not self.taster.isClassAllowed(klass):\n            log.msg(\"class not allowed: %s\" % qual(klass))\n        return klass\n\n    def _unjelly_class(self, rest):\n")],
+           expect_rule="resolver/class-policy"),
+    Mutant("helper-resolves-before-asking", JELLY, '            nameSplit = jelTypeText.split(".")\n            modName = ".".join(nameSplit[:-1])\n            if not self.taster.isModuleAllowed(modName):\n                raise InsecureJelly(\n                    f"Module {modName} not allowed (in type {jelTypeText})."\n                )\n            clz = namedObject(jelTypeText)\n',
+           "            clz = self._lookup(jelTypeText)\n",
+           more=[(JELLY, "    def _genericUnjelly(self, cls, state):\n", "    def _lookup(self, dotted):\n        found = namedObject(dotted)\n        if not self.taster.isModuleAllowed(dotted.rpartition(\".\")[0]):\n            raise InsecureJelly(\"Module not allowed.\")\n        return found\n\n    def _genericUnjelly(self, cls, state):\n")],
+           expect_rule="resolver/never-resolves-outside-policy"),
     Mutant("module-policy-prefix-match", JELLY, "        return moduleName in self.allowedModules\n", "        return any(moduleName.startswith(m) for m in self.allowedModules)\n",
            expect_rule="policy/module-exact-membership"),
     Mutant("type-policy-allows-code-atoms-by-default", JELLY, '            b"frozenset": 1,\n        }\n', '            b"frozenset": 1,\n            b"function": 1,\n        }\n', expect_rule="policy/defaults-empty"),
@@ -640,6 +794,19 @@ SILENT = [
            '        parts = []\n        for piece in modSplit[:-1]:\n            parts.append(piece)\n        modName = nativeString(".").join(parts)\n'),
     Silent("class-memo-owned-by-the-unjellier", JELLY, '        klaus = namedObject(cname)\n        objType = type(klaus)\n', '        klaus = namedObject(cname)\n        self.references.setdefault(("class", cname), klaus)\n        objType = type(klaus)\n'),
     Silent("placeholder-test-as-full-tuple", JELLY, "            if isinstance(data, NotKnown):\n", "            if isinstance(data, (NotKnown, _Dereference)):\n"),
+    Silent("policy-checks-in-private-helpers", JELLY, '        if not self.taster.isModuleAllowed(modName):\n            raise InsecureJelly("module %s not allowed" % modName)\n        klaus = namedObject(cname)\n',
+           "        self._requireModule(modName)\n        klaus = namedObject(cname)\n",
+           more=[(JELLY, "    def _unjelly_class(self, rest):\n", "    def _requireModule(self, name):\n        if not self.taster.isModuleAllowed(name):\n            raise InsecureJelly(\"module %s not allowed\" % name)\n\n"
+                  "    def _requireClass(self, klass):\n        if not self.taster.isClassAllowed(klass):\n            raise InsecureJelly(\"class not allowed: %s\" % qual(klass))\n        return klass\n\n    def _unjelly_class(self, rest):\n"),
+                 (JELLY, '        if not self.taster.isClassAllowed(klaus):\n            raise InsecureJelly("class not allowed: %s" % qual(klaus))\n        return klaus\n', "        return self._requireClass(klaus)\n")]),
+    Silent("generic-class-resolution-in-helper", JELLY, '            nameSplit = jelTypeText.split(".")\n            modName = ".".join(nameSplit[:-1])\n            if not self.taster.isModuleAllowed(modName):\n                raise InsecureJelly(\n                    f"Module {modName} not allowed (in type {jelTypeText})."\n                )\n            clz = namedObject(jelTypeText)\n            if not self.taster.isClassAllowed(clz):\n                raise InsecureJelly("Class %s not allowed." % jelTypeText)\n            return self._genericUnjelly(clz, obj[1])\n',
+           "            wanted = self._vettedClass(jelTypeText)\n            return self._genericUnjelly(wanted, obj[1])\n",
+           more=[(JELLY, "    def _genericUnjelly(self, cls, state):\n", "    def _vettedClass(self, dotted):\n        owner = dotted.rpartition(\".\")[0]\n        if not self.taster.isModuleAllowed(owner):\n            raise InsecureJelly(\"Module %s not allowed.\" % owner)\n"
+                  "        found = namedObject(dotted)\n        if self.taster.isClassAllowed(found):\n            return found\n        raise InsecureJelly(\"Class %s not allowed.\" % dotted)\n\n    def _genericUnjelly(self, cls, state):\n")]),
+    Silent("method-member-test-as-guard-clause", JELLY, "        if im_name in im_class.__dict__:\n            if im_self is None:\n                im = getattr(im_class, im_name)\n",
+           "        if im_name not in im_class.__dict__:\n            raise TypeError(\"instance method changed\")\n        if True:\n            if im_self is None:\n                im = getattr(im_class, im_name)\n"),
+    Silent("policy-defaults-from-module-constants", JELLY, "        self.allowedModules = {}\n        self.allowedClasses = {}\n", "        self.allowedModules = dict.fromkeys(_NOTHING_YET, 1)\n        self.allowedClasses = {}\n",
+           more=[(JELLY, "class SecurityOptions:\n", "_NOTHING_YET = ()\n\n\nclass SecurityOptions:\n")]),
     Silent("class-check-combined", JELLY, '            clz = namedObject(jelTypeText)\n            if not self.taster.isClassAllowed(clz):\n                raise InsecureJelly("Class %s not allowed." % jelTypeText)\n            return self._genericUnjelly(clz, obj[1])\n',
            '            clz = namedObject(jelTypeText)\n            if self.taster.isClassAllowed(clz):\n                return self._genericUnjelly(clz, obj[1])\n            raise InsecureJelly("Class %s not allowed." % jelTypeText)\n'),
 ]
